@@ -15,7 +15,16 @@ THEOREMS = [
     (M, "C06.specs_error_iff", "getPrintfSpecs raises exactly for lone %, mixed styles, gap in ordered arguments; nothing but PrintfException"),
     (M, "C06.specs_ignore_pct", "%% (and text) never changes the specifier list"),
     (M, "C06.specs_reorder", "reordering ordered arguments never changes the specifier list"),
-    (M, "C06.specs_of_rendered_partial", "values assembled from the token alphabet (bounded family) lex back to exactly their tokens"),
+    (M, "C06.specs_of_rendered_partial", "values assembled from the token alphabet (bounded family) lex back to exactly their tokens (kernel evaluation; cross-check of the general proof)"),
+    (M, "C06.atoks_render", "ANY list of well-formed, separated render tokens (text without %, %%, lone %, %[n$][width][.prec]c) lexes back to exactly those tokens with their offsets (exact priority-respecting evaluation of finditer(printf))"),
+    (M, "C06.specs_of_rendered", "getPrintfSpecs of a value assembled from tokens = closed form on the intended tokens, any number of tokens"),
+    (M, "C06.specs_rendered_error_iff", "assembled value: getPrintfSpecs raises <=> the tokens contain a lone %, or both styles, or ordered numbers with a gap; only PrintfException"),
+    (M, "C06.specs_rendered_unordered", "assembled value with unordered arguments only: the list of their types in order"),
+    (M, "C06.specs_rendered_ordered", "assembled value with ordered arguments without gap: position i = type of the last token numbered i+1"),
+    (M, "C06.specs_rendered_reorder", "any permutation of a token list of text, %% and consistent ordered arguments has the same getPrintfSpecs result"),
+    (M, "C06.specs_rendered_reorder_text", "the same when also the text between the arguments changes"),
+    (M, "C06.specs_rendered_ignore_text_pct", "assembled values with the same sequence of lone-% / argument tokens have the same specifier list or the same kind of error (text and %% irrelevant)"),
+    (M, "C06.printf_rendered_error_iff", "checkPrintf on an assembled localized value: error <=> lone % / mixed / gap in the tokens, or their positional types are not a prefix of the reference's"),
     (M, "C06.printf_error_iff", "checkPrintf never raises; error <=> localized value malformed or its specifier list is not a prefix of the reference's"),
     (M, "C06.printf_trailing_warn", "only trailing arguments dropped => exactly one warning naming them"),
     (M, "C06.printf_equal_silent", "equal specifier lists => nothing reported"),
@@ -28,11 +37,16 @@ THEOREMS = [
     (M, "C06.plural_verdict", "plural strings: check() never raises; result = encoding warnings + forms verdict + variable verdict"),
     (M, "C06.plural_vars_verdict", "variable verdict: unused reference variable -> warning, otherwise extra variable -> error"),
     (M, "C06.plural_vars_sets", "the variable verdict depends on the two sets of #n variables only"),
+    (M, "C06.plural_vars_rendered", "a plural value assembled from text (without #) and #n tokens (not followed by a digit) has exactly the variables n, any number of tokens"),
+    (M, "C06.plural_rendered_verdict", "check() on assembled plural values: variable verdict = varsVerdict of the #n tokens of reference and localized value"),
 ]
 PARTIAL = [
-    "specs_of_tokens / specs_reorder / specs_ignore_pct speak about the list of regex matches of a value (what finditer(printf) returns); "
-    "that a value ASSEMBLED from tokens lexes back to them (specs_of_rendered, full statement in Props/C06.lean) is proved only for a "
-    "bounded family by kernel evaluation (specs_of_rendered_partial) and checked beyond it by the independent scanner oracle",
+    "atoks_render / specs_of_rendered (a value ASSEMBLED from tokens lexes back to them) hold for token lists of any length under the "
+    "explicit hypothesis WfRender: text tokens contain no %, ordered numbers are >= 1 and written without leading zero, and what follows "
+    "a lone % is the end of the value or a character that is not %, digit, *, . or a conversion character (sufficient, not necessary: "
+    "e.g. `%1 x` also lexes as a lone %); negation witnesses for each excluded shape are in Props/C06.lean and the excluded shapes are "
+    "probed on the real code by the exhaustive getPrintfSpecs correspondence over the characters `%120$.*dSa`",
+    "plural_vars_rendered requires text tokens without # (a # not followed by a digit would be harmless but is not covered)",
     "check_printf / plural_verdict take the unescaped values (PropertiesEntity.val) as hypotheses `unescape raw = some value`; "
     "totality of the unescape model is covered by the `punescape` correspondence only",
 ]
@@ -202,6 +216,155 @@ def gen_derived(rng):
     return "".join(render(t) for t in rtoks), "".join(render(t) for t in ltoks), exp, mode
 
 
+
+# ------------------------------------------------------------------ the token grammar of C06.atoks_render (WfRender)
+LONE_OK_NEXT = [" ", "!", "é", ",", "-", "$", "#", "a", "(", "Z", ";"]
+WF_TEXT_CHARS = list("ab $*.0123456789dSx#;é-1$")
+NOT_AFTER_LONE = set("%0123456789*." + TYPES)
+
+
+def render_wf(tok):
+    if tok[0] == "text":
+        return tok[1]
+    if tok[0] == "pct":
+        return "%%"
+    if tok[0] == "lone":
+        return "%"
+    _, num, ty, width, prec = tok
+    return "%" + ("%d$" % num if num is not None else "") + width + prec + ty
+
+
+def gen_wf_tokens(rng):
+    """a token list satisfying WfRender: text without %, %%, lone % (followed by the end or a LoneOk character),
+    %[n$][width][.prec]c with n >= 1, width in (\\*|[0-9]+)?, prec in (\\.(\\*|[0-9]+)?)?"""
+    n = rng.randrange(0, 41) if rng.random() < 0.15 else rng.randrange(0, 9)
+    style = rng.choice(["unordered", "ordered", "ordered", "mixed"])
+    hi = rng.choice([1, 2, 3, 3, 5, 12])
+    toks = []
+    for _ in range(n):
+        r = rng.random()
+        if r < 0.3:
+            toks.append(("text", "".join(rng.choice(WF_TEXT_CHARS) for _ in range(rng.randrange(0, 4)))))
+        elif r < 0.4:
+            toks.append(("pct",))
+        elif r < 0.47 and style == "mixed":
+            toks.append(("lone",))
+        else:
+            if style == "unordered":
+                num = None
+            elif style == "ordered":
+                num = rng.randrange(1, hi + 1)
+            else:
+                num = rng.choice([None, None, 1, 2, 3])
+            width = rng.choice(["", "", "", "*", "0", "5", "10", "007", str(rng.randrange(1000))])
+            prec = rng.choice(["", "", "", ".", ".*", ".2", ".10", ".0"])
+            toks.append(("arg", num, rng.choice(TYPES), width, prec))
+    out = []
+    for i, t in enumerate(toks):
+        out.append(t)
+        if t[0] == "lone":
+            rest = "".join(render_wf(u) for u in toks[i + 1:])
+            if rest and rest[0] in NOT_AFTER_LONE:
+                out.append(("text", rng.choice(LONE_OK_NEXT)))
+    return out
+
+
+def wf_render_ok(toks):
+    """the hypothesis WfRender, checked independently of the generator"""
+    for i, t in enumerate(toks):
+        if t[0] == "text" and "%" in t[1]:
+            return False
+        if t[0] == "lone":
+            rest = "".join(render_wf(u) for u in toks[i + 1:])
+            if rest and rest[0] in NOT_AFTER_LONE:
+                return False
+        if t[0] == "arg" and t[1] is not None and t[1] < 1:
+            return False
+    return True
+
+
+def expected_specs(toks):
+    """getPrintfSpecs of the assembled value according to the tokens (the closed form of the theorem):
+    ('err', pos, msg) | ('ok', [types])"""
+    off, mode, args = 0, None, []
+    for t in toks:
+        if t[0] == "lone":
+            return ("err", off, "Found single %")
+        if t[0] == "arg":
+            o = t[1] is not None
+            if mode is not None and mode != o:
+                return ("err", off, "Mixed ordered and non-ordered args")
+            mode = o
+            args.append((t[1], t[2]))
+        off += len(render_wf(t))
+    if not args:
+        return ("ok", [])
+    if not mode:
+        return ("ok", [a[1] for a in args])
+    out = [None] * max(a[0] for a in args)
+    for num, ty in args:
+        out[num - 1] = ty
+    if any(x is None for x in out):
+        return ("err", 0, "Ordered argument missing")
+    return ("ok", out)
+
+
+def gen_wf_plural(rng):
+    """text (without #) and #n tokens; a #n is followed by the end or a non-digit (WfRenderP)"""
+    toks = []
+    for _ in range(rng.randrange(0, 7)):
+        if rng.random() < 0.5:
+            toks.append(("var", rng.choice([0, 1, 1, 2, 2, 3, 10, 12, 22, 123])))
+        else:
+            toks.append(("text", "".join(rng.choice(list("ab ;x12")) for _ in range(rng.randrange(0, 4)))))
+    out = []
+    for i, t in enumerate(toks):
+        out.append(t)
+        if t[0] == "var":
+            rest = "".join(render_wfp(u) for u in toks[i + 1:])
+            if rest and rest[0] in "0123456789":
+                out.append(("text", rng.choice([" ", ";", "x"])))
+    return out
+
+
+def render_wfp(tok):
+    return tok[1] if tok[0] == "text" else "#%d" % tok[1]
+
+
+def rendered_ops(ctx):
+    """C06.atoks_render / specs_of_rendered on the real code: values assembled from random token lists of the theorem's
+    grammar (up to 40 tokens) must have the argument model of their tokens"""
+    from impl import propcheck as P
+    out = Outcome()
+    rng = ctx.rng("c06", "rendered")
+    cases = []
+    for _ in range(ctx.n(6000, 120000)):
+        toks = gen_wf_tokens(rng)
+        if not wf_render_ok(toks):
+            raise RuntimeError("harness: generated token list is not WfRender: %r" % (toks,))
+        cases.append((toks, "".join(render_wf(t) for t in toks)))
+    lines = ["pspecs " + C.enc(v) for _, v in cases]
+    model = C.run_driver_parallel(lines) if ctx.model_ok else [None] * len(lines)
+    for (toks, v), mo in zip(cases, model):
+        exp = expected_specs(toks)
+        sc = P.scan_printf(v)
+        if (exp[0] == "err") != (sc[0] == "bad") or (exp[0] == "ok" and exp[1] != sc[1]):
+            raise RuntimeError("harness: token expectation %r and scanner %r differ on %r" % (exp, sc, v))
+        got = P.impl_specs(v)
+        out.evaluations += 1
+        want = ("err %d %s" % (exp[1], C.enc(exp[2]))) if exp[0] == "err" else "ok " + " ".join(C.enc(t) for t in exp[1])
+        if got.startswith("raise") or got.split(" ")[0] != want.split(" ")[0] or (exp[0] == "ok" and got != want):
+            out.violations.append({"what": "getPrintfSpecs %r of a value assembled from tokens differs from the tokens' "
+                                           "argument model %r" % (got, want), "input": {"kind": "specs", "value": v}})
+        elif got != want:
+            out.disagreements.append({"op": "rendered-offset", "value": v, "impl": got, "tokens": want})
+        elif mo is not None and mo != got:
+            out.disagreements.append({"op": "pspecs", "value": v, "impl": got, "model": mo})
+        out.count("rendered." + (exp[2].split(" ")[0] if exp[0] == "err" else "ok%d" % min(len(exp[1]), 4)))
+        if exp[0] == "err" or exp[1]:
+            out.nontrivial.add(("rendered", got if len(got) < 60 else P.h(got)))
+    return out
+
 # ------------------------------------------------------------------ run
 def jobs_product(kind, refs, l10ns, locale, size=30000):
     n = len(refs) * len(l10ns)
@@ -245,6 +408,8 @@ def run(ctx):
                 "by reordering / dropping / retyping arguments with the verdict known by construction; argument lists of 200-320 "
                 "entries (difflib autojunk range). plural: every locale of CATEGORIES_BY_LOCALE plus odd locale tags x values over "
                 "an 11-token alphabet, gate variants (no comment, other comment, key pluralRule, numeric value). "
+                "assembled values: random token lists (0-40 tokens) of the grammar of C06.atoks_render / plural_vars_rendered, "
+                "expected getPrintfSpecs result / variable sets by construction from the tokens. "
                 "non-trivial = a printf/plural finding is expected or reported; distinct = distinct canonical result lists among those")
     rng = ctx.rng("c06")
     model = bool(ctx.model_ok)
@@ -336,6 +501,15 @@ def run(ctx):
         if rng.random() < 0.08:
             rv = rng.choice(["1", "15", "007", "1\\n", "1\\n\\n", "٣", "1a", "²", "", " 1", "1 "])
         cases.append(([com, key, rv], [None, key, lv], rng.choice(locales), None))
+    # values assembled from the token grammar of C06.plural_vars_rendered
+    from impl import propcheck as P0
+    for _ in range(ctx.n(3000, 60000)):
+        rt, lt = gen_wf_plural(rng), gen_wf_plural(rng)
+        rv, lv = "".join(render_wfp(u) for u in rt), "".join(render_wfp(u) for u in lt)
+        for tk, val in ((rt, rv), (lt, lv)):
+            if P0.scan_vars(val) != {u[1] for u in tk if u[0] == "var"}:
+                raise RuntimeError("harness: plural tokens %r and scanner %r differ" % (tk, sorted(P0.scan_vars(val))))
+        cases.append(([PLURAL_COMMENT, "k", rv], [None, "k", lv], rng.choice(some_locales), None))
     jobs += jobs_pairs("plural", cases)
     out.count("plural.pairs", len(cases))
     for j in jobs:
@@ -356,6 +530,7 @@ def run(ctx):
         if len(out.samples) < 8:
             out.samples += r["samples"][:1]
     out.merge(direct_ops(ctx))
+    out.merge(rendered_ops(ctx))
     return out
 
 
